@@ -193,13 +193,11 @@ class MessageDispatcher(ClientMessageSink):
     return ar
 
   def _DispatchMethod(self, method, args, kwargs, timeout, start_time):
-    open_time = time.time()
-    open_latency = open_time - start_time
-
     if timeout:
-      # Calculate the deadline for this method call.
-      # Reduce it by the time it took for the open() to complete.
-      deadline = start_time + timeout - open_latency
+      # Calculate the deadline for this method call.  start_time was taken
+      # before waiting for Open() to complete, so the time spent opening is
+      # already accounted for.
+      deadline = start_time + timeout
     else:
       deadline = None
 
